@@ -17,7 +17,7 @@ for sid in sorted(os.listdir(os.path.join(VERIF, 'seeded'))):
                  ('OBSOLETE (no longer a defect) — ' if m.get('obsolete') else '') + ('caught' if r.get('caught') else ('MISSED' if r else 'not run'))
                  + ('' if r.get('valid') is None or m.get('obsolete') else (', validated' if r.get('valid') else ', NOT VALID'))
                  + (', rebased' if m.get('rebased_onto') else ''), '; '.join(sig)))
-hdr = ('# Seeded changes (`tools/seedtest.py`; rounds 1–5: `Cnn-m*`, `-r2m*`, `-r3m*`, `-r4m*`, `-r5m*`)\n\n'
+hdr = ('# Seeded changes (`tools/seedtest.py`; rounds 1–7: `Cnn-m*`, `-r2m*` … `-r7m*`; `C20-fix-b0375c5-reverted` = the repaired window defect put back)\n\n'
        'validated = the 146 existing tests pass with the change, the author\'s demonstration exits 1 with it and 0 without it (re-run on the current /repo HEAD).\n'
        'caught = the property\'s quick check exits 1 with a VIOLATION line; "no failing input" marks a structural-only report. rebased = the patch was ported by\n'
        'hand after a `fix:` commit changed its context (original kept as `patch.orig.diff`).\n\n')
